@@ -417,37 +417,6 @@ impl Ctx {
         self.publish_partial();
     }
 
-    /// Coverage-guided entry (libFuzzer targets): the bytes are the random stream of the proptest
-    /// strategy (proptest's pass-through RNG), so the fuzzer mutates generated *cases*, not raw input
-    /// of the library.  Returns the first violation that is not a known finding, with its case.
-    pub fn run_bytes<S>(&mut self, label: &str, strategy: S, data: &[u8], exec: &dyn Fn(&S::Value, &mut CaseLog)) -> Option<(Violation, Value)>
-    where
-        S: Strategy,
-        S::Value: Serialize + Clone + std::fmt::Debug,
-    {
-        use proptest::strategy::ValueTree;
-        use proptest::test_runner::{RngAlgorithm, TestRng};
-        let cfg = Config { failure_persistence: None, max_global_rejects: 64, max_local_rejects: 64, verbose: 0, ..Config::default() };
-        // The pass-through stream answers with zeros once the bytes are used up, and rand's unbiased
-        // range sampling rejects an all-zero word for every range that is not a power of two: append
-        // a fixed pseudo-random tail so that the stream never degenerates (fixed, i.e. independent of
-        // the input, so that a mutation of the input changes only what it touches).
-        let mut stream = Vec::with_capacity(data.len() + (1 << 18));
-        stream.extend_from_slice(data);
-        let mut x: u64 = 0x9E37_79B9_7F4A_7C15;
-        while stream.len() < data.len() + (1 << 18) {
-            x ^= x << 13;
-            x ^= x >> 7;
-            x ^= x << 17;
-            stream.extend_from_slice(&x.to_le_bytes());
-        }
-        let mut runner = TestRunner::new_with_rng(cfg, TestRng::from_seed(RngAlgorithm::PassThrough, &stream));
-        let tree = strategy.new_tree(&mut runner).ok()?;
-        let case = tree.current();
-        let v = self.run_one(label, &case, exec)?;
-        Some((v, serde_json::to_value(&case).unwrap_or(Value::Null)))
-    }
-
     /// Keep a serialised copy of the results so far: the watchdog thread writes it out if a later
     /// case never returns, so the work already done is not lost from the evidence.
     pub fn publish_partial(&mut self) {
